@@ -2221,7 +2221,11 @@ class C02(Check):
     def _notes():
         from .common import LEAN
         p = LEAN / "Utv" / "Gen" / "NOTES.txt"
-        return [l for l in p.read_text().splitlines() if l.strip()] if p.exists() else ["Gen/NOTES.txt missing"]
+        if not p.exists():
+            return ["Gen/NOTES.txt missing"]
+        # only what these two properties' theorems are about (the translator serves other properties' functions as well)
+        mine = ("Constraints.", "functional.", "__constraints__", "TYPE_EXACT_TOLERANCE", "utils/functional.py")
+        return [l for l in p.read_text().splitlines() if l.strip() and any(m in l for m in mine)]
 
 
 CHECK = C02()
